@@ -65,6 +65,51 @@ theorem compile_stage_order_pinned :
     Gen.Pipeline.compileStages = ["config.Check", "parser.Parse", "checker.Check", "compiler.PatchOperators", "ast.Walk",
       "checker.Check", "optimizer.Optimize", "compiler.Compile"] ∧ Gen.Pipeline.optimizeGuard = "config.Optimize" := by decide
 
+/-- the visitors are built as the model assumes: `inRange` is told whether a config (a type-checked tree) is present -/
+theorem visitor_fields_pinned :
+    Gen.Pipeline.optimizeVisitorFields =
+      [("inArray", ""), ("fold", ""), ("constExpr", "fns: config.ConstExprFns"), ("inRange", "typed: config != nil"),
+       ("constRange", "")] := by decide
+
+/-- in_range.go (fix 072d9f0): the kinds `rangeKind` admits are the model's `rangeKd`, a nil type is refused when
+    the tree is typed, `simpleNode` admits what `simpleLeft` admits, and both are conjoined as in `inRangeRule` -/
+theorem in_range_guards_pinned :
+    (Kind.all.all fun k => rangeKd (.num k) == Gen.Pipeline.inRangeKinds.contains k.name) = true ∧
+    Gen.Pipeline.inRangeNilTypeAdmitted = false ∧ rangeKd .invalid = false ∧
+    Gen.Pipeline.inRangeSimpleLeaves = ["IdentifierNode", "PointerNode", "IntegerNode"] ∧
+    Gen.Pipeline.inRangeSimpleThrough = ["PropertyNode"] ∧
+    Gen.Pipeline.inRangeGuard = "(v.typed && !rangeKind(n.Left.Type())) || !simpleNode(n.Left)" := by decide
+
+/-- `simpleLeft` is `simpleNode`: the listed leaves, and property access through a simple operand -/
+theorem simpleLeft_spec (n : Node) :
+    simpleLeft n = true ↔
+      n.kindName ∈ Gen.Pipeline.inRangeSimpleLeaves ∨ (∃ m x name ns, n = .prop m x name ns ∧ simpleLeft x = true) := by
+  cases n <;> simp [simpleLeft, Node.kindName, Gen.Pipeline.inRangeSimpleLeaves]
+  case prop m x name ns => exact ⟨fun h => ⟨m, x, ⟨rfl, rfl⟩, h⟩, fun ⟨_, _, ⟨_, hx⟩, h⟩ => hx ▸ h⟩
+
+/-- fold.go (fix 9249c3a): `plain` = no type or kind `int` (the model's `plainKd`), required of every literal of the
+    unary signs and of `+ - * /`, and of none of `%`, `**` -/
+theorem fold_plain_pinned :
+    Gen.Pipeline.foldPlainCond = "t == nil || t.Kind() == reflect.Int" ∧
+    Gen.Pipeline.foldPlainGuarded = ["unary -", "unary +", "binary +", "binary -", "binary *", "binary /"] ∧
+    plainKd .invalid = true ∧ (Kind.all.all fun k => plainKd (.num k) == (k == .int)) = true ∧ plainKd .string = false := by
+  decide
+
+/-- in_array.go (fix f3d7630): the integer-set rewrite asks for kind `int`, the string-set rewrite for kind `string` -/
+theorem in_array_guards_pinned :
+    Gen.Pipeline.inArrayIntSkip = "t == nil || t.Kind() != reflect.Int" ∧
+    Gen.Pipeline.inArrayStrSkip = "t == nil || t.Kind() != reflect.String" := by decide
+
+/-- const_expr.go (fix 69d5a9a): an integer literal is converted at every numeric kind other than `int` -/
+theorem const_expr_convert_pinned :
+    Gen.Pipeline.constExprConvertKinds =
+      ["int8", "int16", "int32", "int64", "uint", "uint8", "uint16", "uint32", "uint64", "float32", "float64"] := by
+  decide
+
+/-- every kind is converted or is `int` -/
+theorem const_expr_convert_complete :
+    (Kind.all.all fun k => k == .int || Gen.Pipeline.constExprConvertKinds.contains k.name) = true := by decide
+
 /-- the model's rule for `fold` reacts to no binary operator outside the source's list -/
 theorem fold_ignores_other_operators (fl : Flags) (w : World) (m ma mb : Meta) (op : String) (a b : Int) (st : St)
     (h : op ∉ Gen.Pipeline.foldBinaryOps) :
@@ -197,7 +242,7 @@ theorem inRange_equiv (fl : Flags) (m mr mf mt : Meta) (op : String) (l : Node) 
     (hs : c.rangeSizeSigned = true → a ≤ b + 1) (ctx : Ctx) :
     RelM (eval c ctx (inRangeRule fl (.binary m op l (.binary mr ".." (.int mf a) (.int mt b))) st).1)
          (eval c ctx (.binary m op l (.binary mr ".." (.int mf a) (.int mt b)))) :=
-  (inRange_sound fl _ (by simp only [InRangeOK]; exact fun _ _ => ⟨ha, hb, hl, hs⟩) st).ev ctx
+  (inRange_sound fl _ (by simp only [InRangeOK]; exact fun _ _ => ⟨ha, hb, fun _ _ => hl, hs⟩) st).ev ctx
 
 /-- the kinds the repaired in_range guard admits (`Opt.rangeKd`) are exactly the kinds of `inRange_equiv` -/
 theorem rangeKd_iff (k : Kind) : rangeKd (.num k) = true ↔ RangeK k := by
@@ -279,10 +324,10 @@ theorem eval_monotone_in_memory (n : Node) (ctx : Ctx) : RelM (eval c ctx n) (ev
 
 /-- the guards of the five passes: what has to hold at a node for the rewrite firing there to be sound -/
 def GuardOK (c : SCfg) (fl : Flags) (fns : ConstFns) : Pass → Node → Prop
-  | .inArray, N => InArrayOK c N
-  | .fold, N => FoldOK N
+  | .inArray, N => InArrayOK c fl N
+  | .fold, N => FoldOKf fl N
   | .constExpr, N => ConstExprOK c fl fns N
-  | .inRange, N => InRangeOK c N
+  | .inRange, N => InRangeOK c fl N
   | .constRange, N => ConstRangeOK c N
 
 /-- the optimizer restricted to rewrite sites that satisfy their guards produces a tree that simulates
@@ -298,7 +343,7 @@ theorem optimizeWith_sim (fl : Flags) (fns : ConstFns) (g : Guard)
   · cases h
   · rename_i n2 h2
     have s2 := repeatPass_sim (c := c) fl.walkSliceNode (guarded g .fold (foldRule fl c.world))
-      (guarded_sim g .fold _ (fun N st hN => fold_sound fl c.world N (hg _ _ hN) st)) _ _ _ (s1.re hn) h2
+      (guarded_sim g .fold _ (fun N st hN => fold_sound_f fl c.world N (hg _ _ hN) st)) _ _ _ (s1.re hn) h2
     have s12 := s2.trans s1
     have tail : ∀ n3, Sim c n3 n →
         Sim c (walk fl.walkSliceNode (guarded g .constRange constRangeRule)
@@ -530,15 +575,15 @@ def t8n : Node := .binary (mB 4) "in" (.nil ⟨⟨1, 0⟩, .invalid⟩) (.array 
 
 /-- (#8) the string-set rewrite ignores the left type: `false` becomes a run-time error -/
 theorem in_array_left_type_witness :
-    (∃ n', optimize Flags.asIs [] w0 t8 = .ok n' ∧ (Spec.run (cfg (.map [])) none n').1 = .error .type_) ∧
+    (∃ n', optimize Flags.asWas [] w0 t8 = .ok n' ∧ (Spec.run (cfg (.map [])) none n').1 = .error .type_) ∧
     (Spec.run (cfg (.map [])) none t8).1 = .ok (.bool false) ∧
-    (∃ n', optimize Flags.asIs [] w0 t8n = .ok n' ∧ (Spec.run (cfg (.map [])) none n').1 = .error .type_) ∧
+    (∃ n', optimize Flags.asWas [] w0 t8n = .ok n' ∧ (Spec.run (cfg (.map [])) none n').1 = .error .type_) ∧
     (Spec.run (cfg (.map [])) none t8n).1 = .ok (.bool false) :=
   ⟨⟨_, rfl, rfl⟩, rfl, ⟨_, rfl, rfl⟩, rfl⟩
 
 /-- with the guard `Left.Type().Kind() == reflect.String` the deviation is gone -/
 theorem in_array_left_type_repaired :
-    ∃ n', optimize Flags.repaired [] w0 t8 = .ok n' ∧ (Spec.run (cfg (.map [])) none n').1 = .ok (.bool false) :=
+    ∃ n', optimize Flags.asIs [] w0 t8 = .ok n' ∧ (Spec.run (cfg (.map [])) none n').1 = .ok (.bool false) :=
   ⟨_, rfl, rfl⟩
 
 /-- `S in 1..3` -/
@@ -555,21 +600,21 @@ def env9 : Val := .map [("I8", .int .int8 7), ("S", .str "a"), ("X", .fn "X")]
     operand is compared with bounds narrowed to `int8` (`7 in -5..255`: `true` becomes `false`);
     and the left operand is evaluated twice (call log `[X X]` instead of `[X]`) -/
 theorem in_range_left_type_witness :
-    (∃ n', optimize Flags.asIs [] w0 t9s = .ok n' ∧ (Spec.run (cfg env9) none n').1 = .error .type_) ∧
+    (∃ n', optimize Flags.asWas [] w0 t9s = .ok n' ∧ (Spec.run (cfg env9) none n').1 = .error .type_) ∧
     (Spec.run (cfg env9) none t9s).1 = .ok (.bool false) ∧
-    (∃ n', optimize Flags.asIs [] w0 t9i = .ok n' ∧ (Spec.run (cfg env9) none n').1 = .ok (.bool false)) ∧
+    (∃ n', optimize Flags.asWas [] w0 t9i = .ok n' ∧ (Spec.run (cfg env9) none n').1 = .ok (.bool false)) ∧
     (Spec.run (cfg env9) none t9i).1 = .ok (.bool true) :=
   ⟨⟨_, rfl, rfl⟩, rfl, ⟨_, rfl, rfl⟩, rfl⟩
 
 theorem in_range_left_twice_witness :
-    (∃ n', optimize Flags.asIs [] w0 t9x = .ok n' ∧ (Spec.run (cfg env9) none n').2.log.length = 2) ∧
+    (∃ n', optimize Flags.asWas [] w0 t9x = .ok n' ∧ (Spec.run (cfg env9) none n').2.log.length = 2) ∧
     (Spec.run (cfg env9) none t9x).2.log.length = 1 :=
   ⟨⟨_, rfl, rfl⟩, rfl⟩
 
 theorem in_range_repaired :
-    (∃ n', optimize Flags.repaired [] w0 t9s = .ok n' ∧ (Spec.run (cfg env9) none n').1 = .ok (.bool false)) ∧
-    (∃ n', optimize Flags.repaired [] w0 t9x = .ok n' ∧ (Spec.run (cfg env9) none n').2.log.length = 1) ∧
-    (∃ n', optimize Flags.repaired [] w0 t9i = .ok n' ∧ (Spec.run (cfg env9) none n').1 = .ok (.bool true)) :=
+    (∃ n', optimize Flags.asIs [] w0 t9s = .ok n' ∧ (Spec.run (cfg env9) none n').1 = .ok (.bool false)) ∧
+    (∃ n', optimize Flags.asIs [] w0 t9x = .ok n' ∧ (Spec.run (cfg env9) none n').2.log.length = 1) ∧
+    (∃ n', optimize Flags.asIs [] w0 t9i = .ok n' ∧ (Spec.run (cfg env9) none n').1 = .ok (.bool true)) :=
   ⟨⟨_, rfl, rfl⟩, ⟨_, rfl, rfl⟩, ⟨_, rfl, rfl⟩⟩
 
 /-- `I8f(200 / 3)`: the checker has retyped both literals to the parameter type `int8` -/
@@ -581,11 +626,11 @@ def env10 : Val := .map [("I64f", .fn "I64"), ("I8f", .fn "I8")]
 /-- (#10) literals already retyped for a parameter are folded with `int` arithmetic:
     `int8(200) / int8(3) = -18` becomes `int8(200 / 3) = 66` -/
 theorem fold_retyped_witness :
-    (∃ n', optimize Flags.asIs [] w0 t10 = .ok n' ∧ (Spec.run (cfg env10) none n').1 = .ok (.int .int8 66)) ∧
+    (∃ n', optimize Flags.asWas [] w0 t10 = .ok n' ∧ (Spec.run (cfg env10) none n').1 = .ok (.int .int8 66)) ∧
     (Spec.run (cfg env10) none t10).1 = .ok (.int .int8 (-18)) :=
   ⟨⟨_, rfl, rfl⟩, rfl⟩
 
-theorem fold_retyped_repaired : optimize Flags.repaired [] w0 t10 = .ok t10 := rfl
+theorem fold_retyped_repaired : optimize Flags.asIs [] w0 t10 = .ok t10 := rfl
 
 /-- `I64f((7 % 2) * 3)`: only the right literal is retyped (`%` is not an arithmetic operation for the checker) -/
 def t10m : Node := .func ⟨⟨1, 0⟩, .num .int64⟩ "I64f"
@@ -594,9 +639,9 @@ def t10m : Node := .func ⟨⟨1, 0⟩, .num .int64⟩ "I64f"
 /-- (#10, found by the search) the folded literal takes the annotation of the *left* operand: `1 * int64(3)`
     becomes the `int` literal 3, which `func(int64)` refuses at run time -/
 theorem fold_mixed_annotation_witness :
-    (∃ n', optimize Flags.asIs [] w0 t10m = .ok n' ∧ (Spec.run (cfg env10) none n').1 = .error .type_) ∧
+    (∃ n', optimize Flags.asWas [] w0 t10m = .ok n' ∧ (Spec.run (cfg env10) none n').1 = .error .type_) ∧
     (Spec.run (cfg env10) none t10m).1 = .ok (.int .int64 3) ∧
-    (∃ n', optimize Flags.repaired [] w0 t10m = .ok n' ∧ (Spec.run (cfg env10) none n').1 = .ok (.int .int64 3)) :=
+    (∃ n', optimize Flags.asIs [] w0 t10m = .ok n' ∧ (Spec.run (cfg env10) none n').1 = .ok (.int .int64 3)) :=
   ⟨⟨_, rfl, rfl⟩, rfl, ⟨_, rfl, rfl⟩⟩
 
 /-- `I64f(1)` with `I64f` registered as ConstExpr -/
@@ -604,12 +649,12 @@ def t11 : Node := .func ⟨⟨1, 0⟩, .num .int64⟩ "I64f" [.int ⟨⟨1, 5⟩
 
 /-- (#11) ConstExpr passes the literal as `int`: the compile-time call fails although the call succeeds at run time -/
 theorem const_expr_int_kind_witness :
-    optimize Flags.asIs [("I64f", "I64")] w0 t11 = .error ⟨1, 0⟩ ∧
+    optimize Flags.asWas [("I64f", "I64")] w0 t11 = .error ⟨1, 0⟩ ∧
     (Spec.run (cfg env10) none t11).1 = .ok (.int .int64 1) :=
   ⟨rfl, rfl⟩
 
 theorem const_expr_int_kind_repaired :
-    ∃ n', optimize Flags.repaired [("I64f", "I64")] w0 t11 = .ok n' ∧ (Spec.run (cfg env10) none n').1 = .ok (.int .int64 1) :=
+    ∃ n', optimize Flags.asIs [("I64f", "I64")] w0 t11 = .ok n' ∧ (Spec.run (cfg env10) none n').1 = .ok (.int .int64 1) :=
   ⟨_, rfl, rfl⟩
 
 /-- `[1, 2] == Ints` -/
@@ -619,8 +664,8 @@ def env12 : Val := .map [("Ints", .arr (.num .int) [.int .int 1, .int .int 2])]
 /-- (#12) a literal array becomes a `[]int` constant: `==` (reflect.DeepEqual on different slice types) changes
     from `false` to `true` — for the repaired switches as well -/
 theorem array_elem_type_witness :
+    (∃ n', optimize Flags.asWas [] w0 t12 = .ok n' ∧ (Spec.run (cfg env12) none n').1 = .ok (.bool true)) ∧
     (∃ n', optimize Flags.asIs [] w0 t12 = .ok n' ∧ (Spec.run (cfg env12) none n').1 = .ok (.bool true)) ∧
-    (∃ n', optimize Flags.repaired [] w0 t12 = .ok n' ∧ (Spec.run (cfg env12) none n').1 = .ok (.bool true)) ∧
     (Spec.run (cfg env12) none t12).1 = .ok (.bool false) :=
   ⟨⟨_, rfl, rfl⟩, ⟨_, rfl, rfl⟩, rfl⟩
 
@@ -630,14 +675,15 @@ def t13 : Node := .builtin (mI 0) "len" [.binary (mA 5) ".." (.int (mI 4) 1) (.i
 /-- (#13) a constant range is not counted against the budget: under a budget of 10 elements the original
     fails, the optimised tree succeeds (on the real code: `len(1..1000000)` under the default budget) -/
 theorem budget_witness :
+    (∃ n', optimize Flags.asWas [] w0 t13 = .ok n' ∧ (Spec.run (cfg (.map []) 10) none n').1 = .ok (.int .int 10)) ∧
     (∃ n', optimize Flags.asIs [] w0 t13 = .ok n' ∧ (Spec.run (cfg (.map []) 10) none n').1 = .ok (.int .int 10)) ∧
     (Spec.run (cfg (.map []) 10) none t13).1 = .error .budget :=
-  ⟨⟨_, rfl, rfl⟩, rfl⟩
+  ⟨⟨_, rfl, rfl⟩, ⟨_, rfl, rfl⟩, rfl⟩
 
 theorem fnsOfEnv_nil (c : SCfg) : FnsOfEnv c [] := by intro _ _ h; cases h
 
 /-- the full-strength statement is false of the code as it is … -/
-theorem optimize_transparent_goal_fails_asIs : ¬ optimize_transparent_goal Flags.asIs := by
+theorem optimize_transparent_goal_fails_asWas : ¬ optimize_transparent_goal Flags.asWas := by
   intro h
   obtain ⟨⟨n', h1, h2⟩, h3, _⟩ := in_array_left_type_witness
   have := h (cfg (.map [])) [] t8 n' none rfl (fnsOfEnv_nil _) h1
@@ -645,7 +691,7 @@ theorem optimize_transparent_goal_fails_asIs : ¬ optimize_transparent_goal Flag
   exact this
 
 /-- … and remains false with every proposed repair in place, because of (#12) -/
-theorem optimize_transparent_goal_fails_repaired : ¬ optimize_transparent_goal Flags.repaired := by
+theorem optimize_transparent_goal_fails_asIs : ¬ optimize_transparent_goal Flags.asIs := by
   intro h
   obtain ⟨_, ⟨n', h1, h2⟩, h3⟩ := array_elem_type_witness
   have := h (cfg env12) [] t12 n' none rfl (fnsOfEnv_nil _) h1
@@ -700,7 +746,7 @@ example : ∃ n', optimize Flags.asIs [] w0 tEx = .ok n' ∧ (Spec.run (cfg envE
     split at h
     · rename_i m1 m2 m3 l1 l2 l3 l4
       simp only [GuardOK, InArrayOK]
-      refine ⟨fun _ _ => ⟨?_, ?_⟩, fun h => absurd rfl h⟩
+      refine ⟨fun _ _ => ⟨?_, ?_⟩, fun h _ => absurd rfl h⟩
       · intro ctx s v t he
         rw [eval] at he
         exact ⟨2, by cases he; rfl⟩
@@ -712,5 +758,143 @@ example : ∃ n', optimize Flags.asIs [] w0 tEx = .ok n' ∧ (Spec.run (cfg envE
   have h2 : optimize Flags.asIs [] w0 tEx = .ok tEx' := rfl
   refine ⟨tEx', h2, ?_, rfl⟩
   exact optimize_transparent_partial_obs (c := cfg envEx) Flags.asIs [] gEx hg tEx tEx' rfl (h1.trans h2.symm) h2 _ rfl
+
+
+/-! ## Transparency of the code as it is now (`Flags.asIs`: all five `fix:` commits in place)
+
+What the optimizer checks itself no longer has to be assumed: literals of `+ - * /` and of the unary
+signs are un-retyped (9249c3a), the string-set rewrite has a statically-string left operand (f3d7630), the
+in-range rewrite has a left operand of kind int / int64 / unsigned that is an identifier, `#`, a literal or
+a member chain of those — hence evaluated without touching the state (072d9f0), ConstExpr arguments are
+passed at their annotated kind (69d5a9a).  What remains as hypothesis, at the sites where a rewrite fires:
+
+* `KindSound`: the static kind of the left operand of `in` is its dynamic kind (soundness of the checker, C03);
+* integer literals are Go `int`s; the annotation of a folded node agrees with its literal (`FoldOKf`); the
+  literals of `%` and the bounds of a literal range are annotated `int` (the checker never retypes those);
+* the distance of the bounds of a literal range does not overflow `int` (`ConstRangeOK`);
+* the functions registered with ConstExpr are the environment's (`expr.ConstExpr` takes them from `Env`);
+* NOT covered (the filter `g` must exclude them, see `hrun`): folding of `**` (IEEE operations are opaque to
+  the kernel) and folding of literal arrays (`fold_int_array`: only `ObsEq`, and `==` / function parameters
+  observe the difference: `array_elem_type_witness`, known finding c02:array-literal-elem-type);
+* the conclusion excuses a run of the ORIGINAL tree that exceeds the budget (`budget_witness`, known finding
+  c02:budget-differs): the optimised tree allocates less. -/
+
+/-- static kind = dynamic kind, for the kinds the optimizer consults -/
+def KindSound (c : SCfg) (l : Node) : Prop :=
+  ∀ ctx s v t, eval c ctx l s = (.ok v, t) →
+    (∀ k, l.kd = .num k → k.isInt = true → ∃ x, v = .int k x) ∧ (l.kd = .string → ∃ x, v = .str x)
+
+/-- what is left of the guards for the code as it is now -/
+def GuardNow (c : SCfg) (fns : ConstFns) : Pass → Node → Prop
+  | .inArray, .binary _ _ l (.array _ xs) => KindSound c l ∧ (allInts xs ≠ none → IntLitsOK xs)
+  | .fold, N => FoldOKf Flags.asIs N
+  | .constExpr, .func _ name _ _ =>
+    ∀ id, fns.lookup name = some id → ∀ vs, callMember c.world c.env name vs = c.world.call id vs
+  | .inRange, .binary _ _ l (.binary _ _ (.int mf a) (.int mt b)) =>
+    IntLitOK mf a ∧ IntLitOK mt b ∧ KindSound c l ∧ (c.rangeSizeSigned = true → a ≤ b + 1)
+  | .constRange, N => ConstRangeOK c N
+  | _, _ => True
+
+/-- for the code as it is now the fold guard asks nothing about the annotation of the literals of `+ - * /` -/
+theorem foldNow_binary (m ma mb : Meta) (op : String) (a b : Int) (h4 : op = "+" ∨ op = "-" ∨ op = "*" ∨ op = "/") :
+    FoldOKf Flags.asIs (.binary m op (.int ma a) (.int mb b)) ↔ inRange .int a ∧ inRange .int b ∧ m.kd = ma.kd := by
+  have h1 : op ≠ "**" := by rcases h4 with rfl | rfl | rfl | rfl <;> decide
+  have h2 : op ≠ "%" := by rcases h4 with rfl | rfl | rfl | rfl <;> decide
+  simp [FoldOKf, h1, h2, Flags.asIs]
+
+theorem foldNow_unary (m mi : Meta) (op : String) (i : Int) :
+    FoldOKf Flags.asIs (.unary m op (.int mi i)) ↔ inRange .int i ∧ m.kd = mi.kd := by
+  simp [FoldOKf, Flags.asIs]
+
+theorem rangeKd_num {kd : RKind} (h : rangeKd kd = true) : ∃ k, kd = .num k ∧ RangeK k ∧ k.isInt = true := by
+  cases kd with
+  | num k => exact ⟨k, rfl, (rangeKd_iff k).mp h, by cases k <;> first | rfl | (simp [rangeKd] at h)⟩
+  | _ => simp [rangeKd] at h
+
+theorem guardNow_imp (fns : ConstFns) (p : Pass) (N : Node) (h : GuardNow c fns p N) :
+    GuardOK c Flags.asIs fns p N := by
+  cases p with
+  | fold => exact h
+  | constRange => exact h
+  | inArray =>
+    simp only [GuardOK]
+    unfold InArrayOK
+    split
+    · rename_i m op l ma xs
+      simp only [GuardNow] at h
+      obtain ⟨hk, hx⟩ := h
+      refine ⟨fun hkd hai => ⟨fun ctx s v t he => ?_, hx hai⟩, fun _ hstr ctx s v t he => ?_⟩
+      · exact (hk ctx s v t he).1 .int hkd rfl
+      · exact (hk ctx s v t he).2 (hstr rfl)
+    · trivial
+  | constExpr =>
+    simp only [GuardOK]
+    unfold ConstExprOK
+    split
+    · rename_i m name args fast
+      simp only [GuardNow] at h
+      intro id vs hid hvs
+      exact ⟨fun ctx => constArgs_eval Flags.asIs ctx args vs (.inl rfl) hvs, h id hid vs⟩
+    · trivial
+  | inRange =>
+    simp only [GuardOK]
+    unfold InRangeOK
+    split
+    · rename_i m op l mr rop mf a mt b
+      simp only [GuardNow] at h
+      obtain ⟨ha, hb, hk, hs⟩ := h
+      intro _ _
+      refine ⟨ha, hb, fun hkd hsl => ?_, hs⟩
+      obtain ⟨k, hkk, hrk, hint⟩ := rangeKd_num (hkd rfl)
+      intro ctx
+      obtain ⟨r, hr⟩ := simpleLeft_pure (c := c) l (hsl rfl) ctx
+      refine ⟨r, hr, fun v hv => ?_⟩
+      subst hv
+      have he : eval c ctx l {} = (.ok v, {}) := by rw [hr]; rfl
+      obtain ⟨x, hx⟩ := (hk ctx {} v {} he).1 k hkk hint
+      exact ⟨k, x, hx, hrk⟩
+    · trivial
+
+/-- **Transparency of the optimizer as it is now**, under the hypotheses listed above: if `g` selects
+    rewrite sites at which `GuardNow` holds and the optimizer rewrote nowhere else on `n` (`hrun`), then the
+    optimised tree has exactly the result (value or failure class) of `n`, for every environment, world,
+    budget and result cast — unless the run of `n` exceeds the memory budget. -/
+theorem optimize_transparent_asIs_partial (fns : ConstFns) (g : Guard)
+    (hg : ∀ p N, g p N = true → GuardNow c fns p N) (n n' : Node) (hn : reOK n = true)
+    (hrun : optimizeWith g Flags.asIs fns c.world n = optimize Flags.asIs fns c.world n)
+    (h : optimize Flags.asIs fns c.world n = .ok n') (cast : Option Nat) :
+    (Spec.run c cast n).1 = .error .budget ∨ (Spec.run c cast n').1 = (Spec.run c cast n).1 :=
+  optimize_transparent_partial Flags.asIs fns g (fun p N hp => guardNow_imp fns p N (hg p N hp)) n n' hn hrun h cast
+
+/-- a non-trivial instance: `I in 1..3` (`I : int` in the environment) is rewritten to `I >= 1 and I <= 3` by the
+    code as it is now, and `GuardNow` holds at that site -/
+def tNow : Node := .binary (mB 2) "in" (.ident (mI 0) "I" false) (.binary (mA 6) ".." (.int (mI 5) 1) (.int (mI 8) 3))
+
+def tNow' : Node := .binary (mB 2) "and" (.binary {} ">=" (.ident (mI 0) "I" false) (.int (mI 5) 1))
+  (.binary {} "<=" (.ident (mI 0) "I" false) (.int (mI 8) 3))
+
+def gNow : Guard := fun p N => match p, N with
+  | .inRange, .binary _ "in" (.ident ⟨_, .num .int⟩ "I" false) (.binary _ ".." (.int ⟨_, .num .int⟩ 1) (.int ⟨_, .num .int⟩ 3)) => true
+  | _, _ => false
+
+example : ∃ n', optimize Flags.asIs [] w0 tNow = .ok n' ∧ (Spec.run (cfg envEx) none n').1 = .ok (.bool true) := by
+  have hg : ∀ p N, gNow p N = true → GuardNow (cfg envEx) [] p N := by
+    intro p N h
+    unfold gNow at h
+    split at h
+    · simp only [GuardNow]
+      refine ⟨⟨rfl, by decide⟩, ⟨rfl, by decide⟩, ?_, fun h => by cases h⟩
+      intro ctx s v t he
+      rw [eval] at he
+      cases he
+      exact ⟨fun k hk _ => ⟨2, by cases hk; rfl⟩, fun hk => by cases hk⟩
+    · cases h
+  have h0 : optimizeWith gNow Flags.asIs [] w0 tNow = .ok tNow' := rfl
+  have h2 : optimize Flags.asIs [] w0 tNow = .ok tNow' := rfl
+  have h1 := h0.trans h2.symm
+  refine ⟨tNow', h2, ?_⟩
+  rcases optimize_transparent_asIs_partial (c := cfg envEx) [] gNow hg tNow tNow' rfl h1 h2 none with hb | he
+  · exact absurd hb (by rw [show (Spec.run (cfg envEx) none tNow).1 = .ok (.bool true) from rfl]; intro h; cases h)
+  · rw [he]; rfl
 
 end ExprModel.C02
